@@ -87,7 +87,7 @@ def order_twin(ch, ctx, did, steps, twin=False):
 
 def obligations(tier):
     obs = []
-    for did, steps in [("D02", 5), ("D03", 5), ("D04", 5), ("D05a", 6), ("D06p", 7), ("D07", 6), ("D08", 4), ("D12p", 7), ("D13", 4), ("D13i", 4), ("D13d", 6), ("D15", 4), ("D18", 5), ("D20", 5), ("D13e", 5), ("D22b", 6), ("D22", 6)]:
+    for did, steps in [("D02", 5), ("D03", 5), ("D04", 5), ("D05a", 6), ("D06p", 7), ("D07", 6), ("D08", 4), ("D12p", 7), ("D13", 4), ("D13i", 4), ("D13d", 6), ("D15", 4), ("D18", 5), ("D20", 5), ("D13e", 5), ("D22b", 6), ("D22", 6), ("D27", 6)]:
         o = ob("C08", "e2c." + did, "vt.harness.C08:order_twin", {"did": did, "steps": steps}, timeout=900)
         o["antecedents"] = ["c08_compared"]
         obs.append(o)
